@@ -1,5 +1,5 @@
 SPECIFICATION Spec
-CONSTANT OfmDepths = {3, 9}
+CONSTANT OfmDepths = {9}
 CONSTANT IfmDepths = {1, 17}
 CONSTANT KernelHs = {1}
 CONSTANT KernelWs = {2}
